@@ -101,6 +101,7 @@ type env struct {
 	execLog  []execRec
 	seen     int // execLog entries already reported
 	gate     chan struct{}
+	reentrant int // closures the parked closure posts to its own scheduler when released
 	posters  map[int]*poster
 	events   []string
 	pend     []pendEntry
@@ -210,8 +211,42 @@ func (e *env) closure(p, seq int, kind byte) func() {
 		case 'h':
 			if gate != nil {
 				<-gate
+				// re-entrant posts: the closure the consumer was parked in posts to its own scheduler
+				// (poster 99 = the consumer goroutine itself), then returns
+				e.mu.Lock()
+				k := e.reentrant
+				e.reentrant = 0
+				e.mu.Unlock()
+				if k > 0 {
+					e.selfPost(k)
+				}
 			}
 		}
+	}
+}
+
+const selfPoster = 99
+
+func (e *env) selfPost(k int) {
+	p := e.posters[selfPoster]
+	for i := 0; i < k; i++ {
+		seq := p.next
+		p.next++
+		cb := e.closure(selfPoster, seq, 'n')
+		p.blk.Store(1)
+		func() {
+			defer func() {
+				if r := recover(); r != nil {
+					p.pan.Add(1)
+				}
+			}()
+			if t := e.s.Post(cb); t == nil {
+				p.nil_.Add(1)
+			} else {
+				p.ok.Add(1)
+			}
+		}()
+		p.blk.Store(0)
 	}
 }
 
@@ -365,7 +400,9 @@ func (e *env) cleanup() {
 		e.stop()
 	}
 	for _, p := range e.posters {
-		close(p.cmds)
+		if p.cmds != nil {
+			close(p.cmds)
+		}
 	}
 	for i := 0; i < 4; i++ {
 		synctest.Wait()
@@ -381,7 +418,7 @@ func (e *env) cleanup() {
 type taskSpec struct {
 	mode   byte
 	err    bool
-	append bool
+	rmode  byte // a: received args + val, r: [val], z: no results, u: one nil value, m: three values
 	val    int
 }
 
@@ -391,14 +428,14 @@ func parseTasks(v string) ([]taskSpec, bool) {
 		return out, true
 	}
 	for _, s := range strings.Split(v, ",") {
-		if len(s) < 4 || !strings.ContainsRune("sglntvpq", rune(s[0])) || (s[1] != '0' && s[1] != '1') || (s[2] != 'a' && s[2] != 'r') {
+		if len(s) < 4 || !strings.ContainsRune("sglntvpq", rune(s[0])) || (s[1] != '0' && s[1] != '1') || !strings.ContainsRune("arzum", rune(s[2])) {
 			return nil, false
 		}
 		n, err := strconv.Atoi(s[3:])
 		if err != nil || n < 0 {
 			return nil, false
 		}
-		out = append(out, taskSpec{s[0], s[1] == '1', s[2] == 'a', n})
+		out = append(out, taskSpec{s[0], s[1] == '1', s[2], n})
 	}
 	return out, true
 }
@@ -406,7 +443,11 @@ func parseTasks(v string) ([]taskSpec, bool) {
 func showArgs(args []interface{}) string {
 	parts := make([]string, len(args))
 	for i, a := range args {
-		parts[i] = fmt.Sprint(a)
+		if a == nil {
+			parts[i] = "999999" // a nil result value
+		} else {
+			parts[i] = fmt.Sprint(a)
+		}
 	}
 	return "[" + strings.Join(parts, ",") + "]"
 }
@@ -447,9 +488,16 @@ func (e *env) buildTasks(id int, specs []taskSpec) ([]waterfall.Task, waterfall.
 			}
 			e.event(fmt.Sprintf("t%d.%d%s", id, i, showArgs(args)))
 			var res []interface{}
-			if sp.append {
+			switch sp.rmode {
+			case 'a':
 				res = append(append(res, args...), sp.val)
-			} else {
+			case 'z':
+				res = nil
+			case 'u':
+				res = []interface{}{nil}
+			case 'm':
+				res = []interface{}{sp.val, sp.val + 1, sp.val + 2}
+			default:
 				res = []interface{}{sp.val}
 			}
 			res2 := []interface{}{sp.val + 1000}
@@ -566,6 +614,23 @@ func exec(op string) string {
 			synctest.Wait()
 			return e.observe("")
 		case "release":
+			if _, ok := hx.KV(ws, "post"); ok {
+				k := hx.KVInt(ws, "post")
+				e.mu.Lock()
+				parked := e.gate != nil
+				e.mu.Unlock()
+				// a re-entrant post into a channel without room deadlocks the consumer on its own queue (documented
+				// above Post): only within the free slots, and only when the consumer is parked in a closure
+				if !parked || e.stopped || k < 1 || len(e.s.GetChanTask())+k > sche.QueueSize {
+					return "bad-op"
+				}
+				if e.posters[selfPoster] == nil {
+					e.posters[selfPoster] = &poster{id: selfPoster, gid: -7}
+				}
+				e.mu.Lock()
+				e.reentrant = k
+				e.mu.Unlock()
+			}
 			e.release()
 			synctest.Wait()
 			return e.observe("")
@@ -1105,6 +1170,25 @@ func (g *gen) scheCase() {
 			}
 		}
 	}
+	if !stopped && R.Intn(3) == 0 {
+		// re-entrant episode: park the consumer, fill to cap-12..cap-2, the parked closure posts 2..8 (within the room)
+		if !started {
+			started = true
+			g.run("start")
+		}
+		for i := 0; i < 3; i++ {
+			g.run("release")
+		}
+		g.run(fmt.Sprintf("burst p%d=h1", R.Intn(nPosters)))
+		fill := qs - 12 + R.Intn(11)
+		g.run(fmt.Sprintf("burst p%d=n%d", R.Intn(nPosters), fill))
+		k := 2 + R.Intn(7)
+		if fill+k > qs {
+			k = qs - fill
+		}
+		h.Count(fmt.Sprintf("s.reentrant.fill.%d", fill))
+		g.run(fmt.Sprintf("release post=%d", k))
+	}
 	// run down: consumer on, gates open, so that "everything accepted runs" is checked
 	if !started {
 		g.run("start")
@@ -1122,10 +1206,11 @@ var modes = []byte("sssgggllltvnpq")
 
 func (g *gen) taskSpec(mode byte, err bool) string {
 	R := g.h.R
-	am := "a"
-	if R.Intn(4) == 0 {
-		am = "r"
+	am := []string{"a", "a", "a", "a", "r", "z", "u", "m"}[R.Intn(8)]
+	if err && R.Intn(2) == 0 {
+		am = []string{"z", "u", "m"}[R.Intn(3)] // a failing task passing no / a nil / several result values
 	}
+	g.h.Count("w.result." + am)
 	return fmt.Sprintf("%c%d%s%d", mode, hx.B2i(err), am, R.Intn(90))
 }
 
@@ -1248,6 +1333,36 @@ func (g *gen) sweep() {
 			}
 		}
 	}
+	// the failing task passes no result values / one nil value / several values; every position; sync, goroutine, later
+	for _, cons := range []string{"h", "r"} {
+		g.run("reset kind=w cons=" + cons)
+		id, npend := 0, 0
+		for _, m := range []byte("sgl") {
+			for _, rm := range []byte("zum") {
+				for n := 1; n <= 4; n++ {
+					for errPos := 0; errPos < n; errPos++ {
+						id++
+						var specs []string
+						for i := 0; i < n; i++ {
+							if i == errPos {
+								specs = append(specs, fmt.Sprintf("%c1%c%d", m, rm, 10*id+i))
+							} else {
+								specs = append(specs, fmt.Sprintf("%c0%c%d", m, []byte("azum")[(id+i)%4], 10*id+i))
+							}
+						}
+						g.h.Count("w.sweep.error-results")
+						g.run(fmt.Sprintf("chain id=%d via=sche tasks=%s", id, strings.Join(specs, ",")))
+						if m == 'l' {
+							for i := 0; i <= errPos; i++ {
+								g.run(fmt.Sprintf("fire k=%d via=%s", npend, []string{"go", "main", "timer", "post"}[(id+i)%4]))
+								npend++
+							}
+						}
+					}
+				}
+			}
+		}
+	}
 	// chains started from a foreign goroutine / the consumer / the test goroutine, with the consumer idle or parked
 	// behind 0 / 3 / cap-1 / cap queued closures (the starter then blocks in Post on the full channel)
 	for _, cons := range []string{"h", "r"} {
@@ -1293,6 +1408,27 @@ func (g *gen) sweep() {
 	g.run("svc id=4")
 	g.run("mpost svc=4 n=2")
 	g.h.Count("m.sweep")
+	// re-entrant posts: the consumer, parked in a closure, posts 2..8 closures to its own nearly full queue (within the
+	// free slots - beyond them it would deadlock on its own channel); the consumer is then just one more poster
+	for _, cons := range []string{"h", "r"} {
+		for _, fill := range []int{0, 5, sche.QueueSize - 12, sche.QueueSize - 10, sche.QueueSize - 8, sche.QueueSize - 4} {
+			for _, k := range []int{2, 4, 8} {
+				if fill+k > sche.QueueSize {
+					continue
+				}
+				g.run("reset kind=s cons=" + cons)
+				g.run("start")
+				g.run("burst p0=n1h1")
+				if fill > 0 {
+					g.run(fmt.Sprintf("burst p1=n%d", fill))
+				}
+				g.run(fmt.Sprintf("release post=%d", k))
+				g.run("burst p0=h1 p1=n2")
+				g.run("release post=3")
+				g.h.Count("s.sweep.reentrant")
+			}
+		}
+	}
 	// fill levels: exactly at / around the capacity, single and multiple posters, both consumers
 	qs := sche.QueueSize
 	for _, cons := range []string{"h", "r"} {
